@@ -400,6 +400,43 @@ func (e *Env) deltaOracle(n string, s store.Store) {
 	}
 }
 
+// stableOracle: "a store's operations take effect in stable ordinal order" on the real code, for the policies whose
+// effect is plain byte manipulation (set, set_if_not_exists, append): an independent reference applies the calls
+// sorted by ordinal, ties in call order, to the pre-block content and must reach the store's post-block content.
+func (e *Env) stableOracle(n string, s store.Store, ops []Op) {
+	if e.Policy != "set" && e.Policy != "sine" && e.Policy != "append" {
+		return
+	}
+	sorted := append([]Op{}, ops...)
+	sort.SliceStable(sorted, func(i, j int) bool { return sorted[i].Ord < sorted[j].Ord })
+	cur := map[string][]byte{}
+	for k, v := range e.pre[n] {
+		cur[k] = v
+	}
+	for _, o := range sorted {
+		k := string(o.Key)
+		switch o.Kind {
+		case "del":
+			for kk := range cur {
+				if strings.HasPrefix(kk, k) {
+					delete(cur, kk)
+				}
+			}
+		case "set":
+			cur[k] = o.Val
+		case "sine":
+			if _, ok := cur[k]; !ok {
+				cur[k] = o.Val
+			}
+		case "app":
+			cur[k] = append(append([]byte{}, cur[k]...), o.Val...)
+		}
+	}
+	if got, want := e.showKV(content(s), false), e.showKV(cur, false); got != want {
+		e.Fail("C08/ops-not-in-stable-ordinal-order", fmt.Sprintf("calls %s: store holds %s, applying them in stable ordinal order gives %s", ShowOps(ops), got, want))
+	}
+}
+
 // readOracle: C08's first sentence on the real code, for one key and ordinal.
 func (e *Env) readOracle(n string, s store.Store, ord uint64, key string) {
 	pre := e.pre[n]
@@ -473,6 +510,7 @@ func (e *Env) Step(w []string) (res string) {
 		}
 		e.pending[n], e.hasPend[n] = ops, true
 		e.deltaOracle(n, s)
+		e.stableOracle(n, s, ops)
 		return e.showDeltas(s.GetDeltas())
 	case "rd":
 		s := e.stores[w[1]]
